@@ -81,6 +81,78 @@ fn driving_strings(r: &RefDfa, budget: usize) -> Vec<Vec<u8>> {
                 }
             }
         }
+        // two-point perturbations: walk to an early state, insert a symbol, walk on to a late state, insert a symbol, walk on to
+        // the deepest state. (An implementation whose state runs ahead of - or behind - the specification after the first
+        // insertion is only told apart by the second.)
+        {
+            let path = |from: usize, to: usize| -> Option<Vec<usize>> {
+                // shortest symbol sequence from `from` to `to`
+                let mut prev: Vec<Option<(usize, usize)>> = vec![None; n];
+                let mut seen = vec![false; n];
+                seen[from] = true;
+                let mut q = std::collections::VecDeque::from(vec![from]);
+                while let Some(x) = q.pop_front() {
+                    if x == to {
+                        break;
+                    }
+                    for a in 0..k {
+                        let y = r.trans[x][a];
+                        if !seen[y] {
+                            seen[y] = true;
+                            prev[y] = Some((x, a));
+                            q.push_back(y);
+                        }
+                    }
+                }
+                if !seen[to] {
+                    return None;
+                }
+                let mut syms = vec![];
+                let mut x = to;
+                while x != from {
+                    let (px, a) = prev[x]?;
+                    syms.push(a);
+                    x = px;
+                }
+                syms.reverse();
+                Some(syms)
+            };
+            let by_depth: Vec<usize> = {
+                let mut v: Vec<usize> = (0..n).filter(|&s| depth[s] != usize::MAX).collect();
+                v.sort_by_key(|&s| depth[s]);
+                v
+            };
+            let deepest = *by_depth.last().unwrap();
+            let early: Vec<usize> = by_depth.iter().cloned().take(3).chain(by_depth.get(by_depth.len() / 2).cloned()).collect();
+            let late: Vec<usize> = by_depth.iter().cloned().rev().take(4).collect();
+            for &i in &early {
+                for a in 0..k {
+                    for &j in &late {
+                        for b2 in 0..k {
+                            let mut w: Vec<usize> = match path(0, i) {
+                                Some(p) => p,
+                                None => continue,
+                            };
+                            w.push(a);
+                            let s1 = r.trans[i][a];
+                            match path(s1, j) {
+                                Some(p) => w.extend(p),
+                                None => continue,
+                            }
+                            w.push(b2);
+                            let s2 = r.trans[j][b2];
+                            let cut = w.len();
+                            if let Some(p) = path(s2, deepest) {
+                                w.extend(p);
+                            }
+                            let bytes: Vec<u8> = w.iter().map(|&x| r.alphabet[x]).collect();
+                            out.push(bytes[..cut].to_vec());
+                            out.push(bytes);
+                        }
+                    }
+                }
+            }
+        }
         let mut rng = Rng::new(n as u64 * 31 + k as u64, 0x18_aa);
         for w in 0..14 {
             let mut s = 0usize;
